@@ -568,6 +568,8 @@ def oracle(ctx: Ctx, env: Env, spec: dict, family: str, in_scope: bool = True) -
     # 3. every access of an execution goes to its own workflow
     for e in ex.values():
         for a in e["acc"]:
+            if family == "reused" and a[0] == "launch":
+                continue        # the invocation handed over was registered by somebody else: it carries ITS workflow, by design of the re-use
             if e["wf"] is not None and a[2] != e["wf"]:
                 out.append((f"foreign-workflow-access:{family}",
                             f"the execution {e['tag']} of invocation {e['inv'][:8]} (workflow {e['wf'][:8]}) did `{a[0]} {a[3][:40]}` on workflow {a[2][:8]}"))
@@ -1048,7 +1050,45 @@ def spec_fault(rng) -> dict:  # type: ignore[no-untyped-def]
     return {"family": "fault", "children": ch, "scripts": scripts, "plan": plan}
 
 
-FAMILIES = {"fault": (fam_fault, spec_fault), "direct": (fam_direct, gen_direct), "retry": (fam_retry, gen_retry), "fresh": (fam_fresh, gen_fresh),
+def fam_reused(ctx: Ctx, env: Env, spec: dict) -> None:
+    """the sub-task collapses duplicate registrations (registration concurrency) and an IDENTICAL call, made outside any of the
+    scenario's workflows, is still REGISTERED when a body reaches `execute_task`: the body is handed that invocation.  It is what
+    this workflow launched for the call: later executions must get the same one back - also after it has run and is no longer
+    there to be re-used.  plan items: ["top", wi, limit|None] | ["outside", key] | ["run-outside", key]"""
+    from pynenc.conf.config_task import ConcurrencyControlType as C
+
+    from harness import tasks as T
+
+    env.c = env.app.task(T.wf_child, registration_concurrency=C.ARGUMENTS)
+    env.set_children(spec["children"])
+    for sc in spec["scripts"]:
+        env.new_top(sc)
+    outside: dict[str, Any] = {}
+    for item in spec["plan"]:
+        if item[0] == "outside":
+            outside[item[1]] = env.c(env.app_id, item[1], list(spec["children"][item[1]]))
+        elif item[0] == "run-outside":
+            if item[1] in outside:
+                run_inline(env, str(outside[item[1]].invocation_id), item[1], None)
+        else:
+            inv = env.tops[item[1]]
+            run_inline(env, str(inv.invocation_id), f"W{item[1]}", item[2])
+    env.notes["outside_calls"] = len(outside)
+
+
+def spec_reused(rng) -> dict:  # type: ignore[no-untyped-def]
+    ch = {"k0": [], "k1": ["r"], "k2": []}
+    scripts = [[["s", "k0", ch["k0"]], "r", ["s", "k1", ch["k1"]], "u"], ["u", ["s", "k0", ch["k0"]]]]
+    plan: list = [["outside", "k0"], ["top", 0, None], ["top", 1, None]]
+    if rng.random() < 0.5:
+        plan.insert(1, ["outside", "k1"])
+    tail = [["run-outside", "k0"], ["top", 0, None], ["run-outside", "k1"], ["top", 1, None], ["top", 0, rng.randint(1, 4)], ["top", 0, None]]
+    if rng.random() < 0.5:
+        tail[0], tail[1] = tail[1], tail[0]
+    return {"family": "reused", "children": ch, "scripts": scripts, "plan": plan + tail}
+
+
+FAMILIES = {"reused": (fam_reused, spec_reused), "fault": (fam_fault, spec_fault), "direct": (fam_direct, gen_direct), "retry": (fam_retry, gen_retry), "fresh": (fam_fresh, gen_fresh),
             "coop": (fam_coop, gen_coop), "threads": (fam_threads, gen_threads)}
 
 
@@ -1267,6 +1307,12 @@ def run(ctx: Ctx) -> None:
             sp = spec_fault(ctx.rng)
             run_scenario(ctx, None, None, "sqlite", sp)
             ctx.distinct(("fault", "sqlite", shape(sp)))
+        # a sub-task with registration concurrency whose identical call is waiting outside the workflow: oracle only
+        for _ in range(2 if q else 8):
+            for backend in ("mem", "sqlite"):
+                sp = spec_reused(ctx.rng)
+                run_scenario(ctx, None, None, backend, sp)
+                ctx.distinct(("reused", backend, shape(sp)))
         # out of the property's quantifier: replayed, compared with the model, recorded — never reported
         outq: dict[str, Any] = {}
         for backend in ("mem", "sqlite"):
